@@ -57,6 +57,11 @@ func (s *scanner) Scan(value bytes.Bytes) (*Number, error) {
 		return nil, err
 	}
 
+	if len(n.nat) == 0 {
+		// Negative zero is zero.
+		n.neg = false
+	}
+
 	return &n, nil
 }
 
